@@ -47,17 +47,23 @@ class HarnessError(Exception):
 class EventLog:
     """(seq#, vtime_us, kind, actor, payload).  seq# is the global event
     number; ordering questions use it, not coarse time."""
-    __slots__ = ("events", "_h", "keep")
+    __slots__ = ("events", "_h", "keep", "triggers")
 
     def __init__(self, keep=True):
         self.events = []
         self._h = hashlib.blake2b(digest_size=16)
         self.keep = keep
+        self.triggers = None      # {event index: [callable]} - fault placement
 
     def add(self, t, kind, actor, payload=None):
         rec = (len(self.events), int(round(t * 1e6)), kind, actor, payload)
         self.events.append(rec)
         self._h.update(repr(rec).encode())
+        if self.triggers:
+            fns = self.triggers.pop(rec[0], None)
+            if fns:
+                for fn in fns:
+                    fn()
         return rec[0]
 
     def digest(self):
